@@ -560,14 +560,17 @@ func genChunkPlan(r *Rng, n int) ([]simrt.ReadStep, int) {
 		return nil, r.Pick2([]int{2, 3, 7, 4095, 4096, 4097, 100})
 	}
 	left := n
-	zeros := 0 // consecutive zero-byte reads so far: stays well below bufio's limit of 100
+	// consecutive zero-byte reads so far: few - how many empty reads in a row a reader
+	// of readers puts up with before it gives up (bufio: 100) is not for the
+	// statement to fix; a handful is what any implementation must take
+	zeros := 0
 	for left > 0 && len(steps) < 400 {
 		var c int
 		switch r.Intn(8) {
 		case 0:
 			c = 0 // zero-byte read
-			k := r.Range(1, 40)
-			for i := 0; i < k && zeros < 60; i++ {
+			k := r.Range(1, 3)
+			for i := 0; i < k && zeros < 3; i++ {
 				steps = append(steps, simrt.ReadStep{N: 0})
 				zeros++
 			}
@@ -1171,8 +1174,11 @@ func (propC14) Judge(sc *Scenario) *Verdict {
 			}
 			one := run("baseline for stall", text, nil, 0)
 			r := run("stalled reader", text, steps, 0)
-			if v.OK && p.Stall < 100 && !sameRead(one, r) {
-				v.fail("c14:stall-changes-result", fmt.Sprintf("%d zero-byte reads (legal, below bufio's limit) changed the result:\n  plain: %s\n  stalled: %s", p.Stall, readSummary(one), readSummary(r)))
+			if v.OK && p.Stall < 100 && !sameRead(one, r) && r.Err != "" {
+				// many empty reads in a row: giving up with an error is the reader's right
+				v.stat("probe.stalled-reader-given-up")
+			} else if v.OK && p.Stall < 100 && !sameRead(one, r) {
+				v.fail("c14:stall-changes-result", fmt.Sprintf("%d zero-byte reads changed the result (other than into an error):\n  plain: %s\n  stalled: %s", p.Stall, readSummary(one), readSummary(r)))
 			}
 			if p.Stall >= 100 {
 				v.stat("probe.stall>=100")
